@@ -448,6 +448,119 @@ def gen_sequence(ctx, rng, order, nsteps):
     return line, ' ; '.join(outs), metas, fails, shape
 
 
+
+# ----------------------------------------------------------------------------------------- compiled kernels (subprocess)
+_KERNEL_PROBE = r"""
+import sys, json
+import numpy as np
+seed = int(sys.argv[1]); quick = sys.argv[2] == 'quick'
+from pyiga import lowrank, tensor
+rng = np.random.default_rng(seed + 4000)
+def say(kind, **kw):
+    print(json.dumps(dict(kind=kind, **kw)), flush=True)
+def shapes2(k):
+    out = [(1, 5), (5, 1), (1, 1), (2, 7), (7, 2), (3, 8), (8, 3), (4, 40), (40, 4), (6, 6), (5, 7), (7, 5)]
+    for _ in range(k):
+        out.append((int(rng.integers(1, 12)), int(rng.integers(1, 12))))
+    # wide shapes first: a kernel that mixes up the two extents is detected there before a tall shape can overrun memory
+    return sorted(out, key=lambda s: (s[0] > s[1], s[0] * s[1]))
+nfail = 0
+# 1. rank_1_update(X, alpha, u, v) == X + alpha * outer(u, v)  (small integers / dyadic alpha: exact)
+for (m, n) in shapes2(40 if quick else 400):
+    X0 = rng.integers(-4, 5, size=(m, n)).astype(float); u = rng.integers(-3, 4, size=m).astype(float)
+    v = rng.integers(-3, 4, size=n).astype(float); alpha = float(rng.choice([0.5, -2.0, 1.0, 0.25]))
+    case = dict(function='rank_1_update', shape=[m, n], X=X0.tolist(), alpha=alpha, u=u.tolist(), v=v.tolist())
+    say('start', case=case)
+    X = X0.copy(); lowrank.rank_1_update(X, alpha, u, v)
+    want = X0 + (alpha * u)[:, None] * v[None, :]
+    if not np.array_equal(X, want):
+        say('fail', case=case, what='rank_1_update on a %dx%d matrix differs from X + alpha*outer(u,v): max deviation %g' % (m, n, float(abs(X - want).max())))
+        sys.exit(0)
+# 2. aca3d_update(X, alpha, u, V): X[i,j,k] += alpha*u[i]*V[j,k]
+sh3 = [(1, 2, 3), (3, 2, 1), (2, 5, 3), (3, 1, 4), (4, 3, 1), (1, 1, 6), (5, 2, 2), (2, 2, 5)] + \
+      [tuple(int(rng.integers(1, 7)) for _ in range(3)) for _ in range(30 if quick else 300)]
+for shp in sorted(sh3, key=lambda s: s[0] * s[1] * s[2]):
+    X0 = rng.integers(-4, 5, size=shp).astype(float); u = rng.integers(-3, 4, size=shp[0]).astype(float)
+    V = rng.integers(-3, 4, size=shp[1:]).astype(float); alpha = float(rng.choice([0.5, -2.0, 1.0]))
+    case = dict(function='aca3d_update', shape=list(shp), X=X0.tolist(), alpha=alpha, u=u.tolist(), V=V.tolist())
+    say('start', case=case)
+    X = X0.copy(); lowrank.aca3d_update(X, alpha, u, V)
+    want = X0 + (alpha * u)[:, None, None] * V[None, :, :]
+    if not np.array_equal(X, want):
+        say('fail', case=case, what='aca3d_update on shape %s differs from X + alpha*u (x) V' % (shp,))
+        sys.exit(0)
+# 3. aca / aca_lr on exactly rank-r rectangular matrices (skipcount=200: early stops by unlucky restarts negligible)
+for (m, n) in shapes2(60 if quick else 600):
+    r = int(rng.integers(1, min(m, n) + 1))
+    if rng.integers(0, 2):
+        A = (rng.integers(-2, 3, size=(m, r)) @ rng.integers(-2, 3, size=(r, n))).astype(float)
+    else:
+        A = rng.standard_normal((m, r)) @ rng.standard_normal((r, n))
+    if not A.any():
+        continue
+    sd = int(rng.integers(0, 2 ** 31)); tol = 1e-12 * float(abs(A).max())
+    case = dict(function='aca', shape=[m, n], rank=r, A=A.tolist(), tol=tol, maxiter=min(m, n) + 2, skipcount=200, seed=sd)
+    say('start', case=case)
+    np.random.seed(sd)
+    X = lowrank.aca(A, tol=tol, maxiter=min(m, n) + 2, skipcount=200, tolcount=3, verbose=0)
+    nA = float(np.linalg.norm(A))
+    if X.shape != A.shape or not float(np.linalg.norm(X - A)) <= 1e-8 * nA:
+        say('fail', case=case, what='aca of an exactly rank-%d %dx%d matrix: relative error %.3g' % (r, m, n, float(np.linalg.norm(X - A)) / nA))
+        sys.exit(0)
+    np.random.seed(sd)
+    cr = lowrank.aca_lr(A, tol=tol, maxiter=min(m, n) + 2, verbose=0)
+    Xl = sum(np.outer(c, rr) for (c, rr) in cr) if cr else np.zeros_like(A)
+    if float(np.linalg.norm(Xl - A)) > 1e-8 * nA:
+        say('note', what='aca_lr (fixed skipcount=3) stopped early on a %dx%d rank-%d matrix' % (m, n, r))
+say('done')
+"""
+
+
+def kernel_probe(ctx):
+    """compiled kernels rank_1_update / aca3d_update and the matrix ACA on RECTANGULAR shapes (m != n both ways, 1 x n,
+    n x 1) against their dense definitions, run in a subprocess: the kernels run with boundscheck off, so a defect may
+    crash the interpreter; a crash is reported as a violation with the last started input.  Returns True iff clean
+    (only then are the in-process streams that call these kernels run)."""
+    import json
+    import subprocess
+    from .common import PY
+    try:
+        p = subprocess.run([PY, '-c', _KERNEL_PROBE, str(ctx.seed), ctx.tier], stdout=subprocess.PIPE, stderr=subprocess.PIPE,
+                           text=True, timeout=600)
+        rc, out, err = p.returncode, p.stdout, p.stderr
+    except subprocess.TimeoutExpired as ex:
+        rc, out, err = 'timeout', (ex.stdout or b'').decode() if isinstance(ex.stdout, bytes) else (ex.stdout or ''), ''
+    last, fails, done, n = None, [], False, 0
+    for line in out.split('\n'):
+        if not line.startswith('{'):
+            continue
+        try:
+            d = json.loads(line)
+        except Exception:
+            continue
+        if d['kind'] == 'start':
+            last = d['case']; n += 1
+            ctx.case(('kernel', d['case']['function'], tuple(d['case']['shape']), n), nontrivial=len(set(d['case']['shape'])) > 1)
+            ctx.count('kernel probe: ' + d['case']['function'])
+        elif d['kind'] == 'fail':
+            fails.append(d)
+        elif d['kind'] == 'note':
+            ctx.count('kernel probe note: aca_lr stopped early (statistic)')
+        elif d['kind'] == 'done':
+            done = True
+    ctx.extra['kernel_probe_cases'] = n
+    for d in fails:
+        ctx.violation('lowrank-kernel:' + d['case']['function'], d['what'], d['case'], True)
+    if not done and not fails:
+        what = ('the interpreter %s while running %s on shape %s (compiled kernel with boundscheck off)'
+                % ('timed out' if rc == 'timeout' else 'died with exit status %s' % rc,
+                   last['function'] if last else '?', last['shape'] if last else '?'))
+        ctx.violation('lowrank-kernel:crash', what, {'last_started_case': last, 'exit': rc, 'stderr': err[-1500:]}, last is not None)
+    ok = done and not fails
+    ctx.obligation('kernel probe (subprocess): rank_1_update / aca3d_update / aca on %d rectangular cases == dense definition' % n,
+                   ok, '' if ok else 'see violations')
+    return ok
+
 # ----------------------------------------------------------------------------------------- main
 def run(ctx):
     ctx.build_repo()
@@ -460,6 +573,8 @@ def run(ctx):
     rng = ctx.rng
     import time as _time
     _t_own = _time.time()
+    kernels_ok = kernel_probe(ctx)
+    ctx.kernels_ok = kernels_ok
     np.random.seed(ctx.seed)
     ctx.trusted += [
         'numpy tensordot/pad/hstack/fancy indexing, Python range/slice semantics (CPython PySlice_AdjustIndices): modelled by their documented behaviour',
@@ -719,7 +834,7 @@ def run(ctx):
 
     import io, contextlib
     nacc = 0
-    for (line, A, stream, maxiter, sk, tc, tol, lr), ans in zip(cands, pre):
+    for (line, A, stream, maxiter, sk, tc, tol, lr), ans in zip(cands if kernels_ok else [], pre):
         parts = ans.split(' | ')
         if len(parts) != 3:
             add(line, 'model-answer-malformed', ('aca',)); continue
@@ -796,7 +911,10 @@ def run(ctx):
     known_probes(ctx)
     numeric_checks(ctx)
     greedy_checks(ctx)
-    aca3d_checks(ctx)
+    if kernels_ok:
+        aca3d_checks(ctx)
+    else:
+        ctx.count('in-process aca / aca_3d streams skipped: the kernel probe failed (memory safety)')
     ctx.extra['own_compute_s (after build/audit; excludes waiting for the shared lake lock)'] = round(_time.time() - _t_own, 1)
     ctx.assumptions += [
         'index lists are per-axis (orthogonal) selections as _normalize_indices defines them; with >=2 lists numpy pairs them instead (documented difference, not reported)',
@@ -898,7 +1016,7 @@ def numeric_checks(ctx):
         r = int(rng.integers(1, 4))
         A = rng.standard_normal((m, r)).dot(rng.standard_normal((r, n)))
         np.random.seed(int(rng.integers(0, 2 ** 31)))
-        Xa = lowrank.aca(A, tol=1e-12, maxiter=50, verbose=0)
+        Xa = lowrank.aca(A, tol=1e-12, maxiter=50, verbose=0) if getattr(ctx, 'kernels_ok', True) else A
         if np.linalg.norm(Xa - A) > 1e-8 * np.linalg.norm(A):
             ctx.count('num-aca: rank-r matrix not reproduced to 1e-8 (pivot growth; statistic only)')
         n_ok += 1
